@@ -411,4 +411,60 @@ theorem exportExtensions_ok (e : Str) (addFails : Str → Str → Bool) : (expor
   exportExtLoop_ok e addFails _ 0 0 [] [] [] (Nat.le_refl 0)
 
 
+/-! ### handleIncomingSSRC -/
+theorem handleUndeclaredSSRC_ok (m : Media) : (handleUndeclaredSSRC m).ok = true := by
+  unfold handleUndeclaredSSRC
+  apply Res.ok_bind _ _ (undeclaredScan_ok _ _ _ _ _)
+  intro ⟨sid, id, r, s⟩ _
+  simp only
+  split <;> (try split) <;> rfl
+
+theorem undeclaredCall_ok (addOK : Nat → Bool) (m : Media) : (undeclaredCall addOK m).ok = true := by
+  unfold undeclaredCall
+  apply Res.ok_bind _ _ (handleUndeclaredSSRC_ok m)
+  intro r _
+  cases r <;> simp only <;> (try split) <;> rfl
+
+theorem handleIncomingSSRCHead_ok (s : Session) (isAnswer withoutAnswer midOK ridOK : Bool) (known addOK : Nat → Bool)
+    (ssrc : Nat) (pkt : Option (List Nat)) :
+    (handleIncomingSSRCHead s isAnswer withoutAnswer midOK ridOK known addOK ssrc pkt).ok = true := by
+  unfold handleIncomingSSRCHead
+  obtain ⟨ts, e, _⟩ := tdMedias_spec s.medias
+  have e' : trackDetailsFromSDP s = .val ts := e
+  rw [e']
+  simp only [Res.bind_val]
+  split
+  · rfl
+  · apply Res.ok_bind
+    · split
+      · rename_i h
+        simp only [Bool.and_eq_true, beq_iff_eq] at h
+        rw [idx_eq_val _ 0 (by omega)]
+        simp only [Res.bind_val]
+        exact undeclaredCall_ok _ _
+      · rfl
+    · intro sc _
+      split
+      · rfl
+      · split
+        · rfl
+        · split
+          · rfl
+          · rename_i b hb
+            rw [idx_eq_val _ 1 (by omega)]
+            simp only [Res.bind_val]
+            cases hk : known (b[1] % 128)
+            · simp [rtpParametersByPayloadType, hk]
+            · simp only [rtpParametersByPayloadType, hk, if_true]
+              split
+              · split
+                · rfl
+                · split
+                  · apply Res.ok_bind _ _ (undeclaredCall_ok _ _)
+                    intro r _; cases r <;> rfl
+                  · rfl
+              · split
+                · rfl
+                · rfl
+
 end WebrtcVerif.RemoteInput
